@@ -15,6 +15,7 @@ package server
 // distance.
 
 import (
+	"encoding/json"
 	"fmt"
 	"math"
 	"sort"
@@ -121,6 +122,9 @@ func c13Parse(v rv) ([]c13Hit, bool) {
 func c13Tol(d float64) float64 { return d*1e-6 + 1 }
 
 // c13Query checks one NEARBY query against the oracle.
+// c13JSON: a connection in JSON output mode (set by checkC13)
+var c13JSON *Cli
+
 func c13Query(res *Result, c *Cli, key string, objs []c13Obj, qlat, qlon float64, tag string, viol func(sig, detail string)) {
 	truth := map[string]float64{}
 	var sorted []c13Hit
@@ -156,6 +160,30 @@ func c13Query(res *Result, c *Cli, key string, objs []c13Obj, qlat, qlon float64
 		}
 		if i > 0 && truth[hits[i-1].ID] > truth[h.ID]+c13Tol(truth[h.ID])+c13Tol(truth[hits[i-1].ID]) {
 			viol("order:"+tag, fmt.Sprintf("%s returns %s (%.3f m) before %s (%.3f m)", qs, hits[i-1].ID, truth[hits[i-1].ID], h.ID, truth[h.ID]))
+		}
+	}
+	// the same reply as a JSON document: every entry carries its id and its distance,
+	// also when the distance is 0
+	if c13JSON != nil && tag == "small" {
+		j := c13JSON.Do("NEARBY", key, "LIMIT", "100000", "DISTANCE", "IDS", "POINT", fnum(qlat), fnum(qlon))
+		var doc struct {
+			OK  bool              `json:"ok"`
+			IDs []json.RawMessage `json:"ids"`
+		}
+		if j.K != '$' || json.Unmarshal([]byte(j.S), &doc) != nil || !doc.OK {
+			viol("distance-json:"+tag, fmt.Sprintf("%s in JSON mode replied %s", qs, vclip(j.String(), 160)))
+		} else {
+			for i, raw := range doc.IDs {
+				var e struct {
+					ID       string   `json:"id"`
+					Distance *float64 `json:"distance"`
+				}
+				if json.Unmarshal(raw, &e) != nil || e.Distance == nil {
+					viol("distance-json:"+tag, fmt.Sprintf("%s in JSON mode: entry %d is %s, not an object with id and distance (true distance %.3f m)", qs, i, vclip(string(raw), 80), truth[hits[min(i, len(hits)-1)].ID]))
+				} else if i < len(hits) && (e.ID != hits[i].ID || math.Abs(*e.Distance-hits[i].Dist) > 0.001) {
+					viol("distance-json:"+tag, fmt.Sprintf("%s: entry %d is %s/%.3f in JSON mode, %s/%.3f in RESP mode", qs, i, e.ID, *e.Distance, hits[i].ID, hits[i].Dist))
+				}
+			}
 		}
 	}
 	// LIMIT k: the k closest (ties as a set)
@@ -252,6 +280,9 @@ func checkC13(job *Job, res *Result) {
 	x := runExec(job, freezeAllBut(), func(x *Exec) {
 		in := x.Start("L", x.dir+"/L", 9001, nil)
 		c := x.Dial(in.Addr)
+		c13JSON = x.Dial(in.Addr)
+		c13JSON.Do("OUTPUT", "json")
+		defer func() { c13JSON = nil }()
 		caseNo := 0
 		for si, sub := range subsets {
 			if si%job.NShards != job.Shard {
